@@ -151,6 +151,13 @@ C04_Between(E, R) ==
         /\ (E[x].ro # None /\ IndexOf(s, E[x].ro) # 0 => IndexOf(s, E[x].ro) > i)
 C01_DepClosed(E, R) == \A x \in Units(R.lst) : Deps(E, x) \subseteq Have(R)
 C05_DeadExact(E, R) == R.dead = ExpectedDead(E, R.lst, R.gone, R.ddel)
+(* causal last-writer-wins: SEEN[y] = elements of y's own map-entry chain that y's creator had      *)
+(* integrated when it created y.  An entry that causally follows another one lies to its right, so  *)
+(* the visible (right-most) entry is never causally followed by another delivered write of that key *)
+C05_CausalOrder(E, SEEN, R) ==
+  \A c \in DOMAIN R.lst :
+    LET s == R.lst[c] IN
+      Keyed(E, s) => \A i, j \in 1..Len(s) : (i < j /\ s[i] \in DOMAIN SEEN) => s[j] \notin SEEN[s[i]]
 C02_NothingLost(R) == /\ R.dlv = Have(R) \cup (R.pend \ Have(R))
                       /\ R.pend \subseteq R.dlv
                       /\ (R.ddel \ Have(R)) \subseteq R.pds
